@@ -181,13 +181,15 @@ func (a *Apps) Load(mf mechanisms.MechanismFactory, sets RuleSetFor) error {
 
 // Req is one logical request.
 type Req struct {
-	Method     string
-	Scheme     string // http | https
-	Host       string
-	RawPath    string // escaped path as on the request line
-	RawQuery   string
-	Header     [][2]string // ordered, repeated names allowed, names as sent
-	Body       string
+	Method   string
+	Scheme   string // http | https
+	Host     string
+	RawPath  string // escaped path as on the request line
+	RawQuery string
+	Header   [][2]string // ordered, repeated names allowed, names as sent
+	Body     string
+	// Chunked: the body is sent with Transfer-Encoding: chunked in two chunks (unknown length for the receiver)
+	Chunked    bool
 	RemoteAddr string
 }
 
@@ -215,6 +217,22 @@ func (r *Req) raw() []byte {
 
 	for _, h := range r.Header {
 		fmt.Fprintf(&b, "%s: %s\r\n", h[0], h[1])
+	}
+
+	if r.Body != "" && r.Chunked {
+		half := len(r.Body) / 2
+
+		b.WriteString("Transfer-Encoding: chunked\r\n\r\n")
+
+		for _, chunk := range []string{r.Body[:half], r.Body[half:]} {
+			if chunk != "" {
+				fmt.Fprintf(&b, "%x\r\n%s\r\n", len(chunk), chunk)
+			}
+		}
+
+		b.WriteString("0\r\n\r\n")
+
+		return b.Bytes()
 	}
 
 	if r.Body != "" {
